@@ -16,6 +16,7 @@ import (
 	"github.com/oasisprotocol/oasis-core/go/common/keyformat"
 	"github.com/oasisprotocol/oasis-core/go/common/logging"
 	"github.com/oasisprotocol/oasis-core/go/storage/mkvs/db/api"
+	"github.com/oasisprotocol/oasis-core/go/storage/mkvs/db/api/verifhook"
 	"github.com/oasisprotocol/oasis-core/go/storage/mkvs/node"
 	"github.com/oasisprotocol/oasis-core/go/storage/mkvs/writelog"
 )
@@ -272,6 +273,7 @@ func (d *badgerNodeDB) cleanMultipartLocked(removeNodes bool) error {
 	}
 
 	metaTx := d.db.NewTransactionAt(tsMetadata, true)
+	verifhook.CrashPoint("badger.cleanMultipart.afterBatchFlush")
 	defer metaTx.Discard()
 	if err := d.meta.setMultipartVersion(metaTx, 0); err != nil {
 		return err
@@ -706,6 +708,7 @@ func (d *badgerNodeDB) Finalize(roots []node.Root) error { // nolint: gocyclo
 	if err := versionBatch.Flush(); err != nil {
 		return err
 	}
+	verifhook.CrashPoint("badger.finalize.afterBatchFlush")
 
 	// Save roots metadata if changed.
 	if rootsChanged {
@@ -722,6 +725,7 @@ func (d *badgerNodeDB) Finalize(roots []node.Root) error { // nolint: gocyclo
 	if err := tx.CommitAt(tsMetadata, nil); err != nil {
 		return fmt.Errorf("mkvs/badger: failed to commit metadata: %w", err)
 	}
+	verifhook.CrashPoint("badger.finalize.afterMetaCommit")
 
 	// Clean multipart metadata if there is any.
 	if d.multipartVersion != multipartVersionNone {
@@ -834,6 +838,7 @@ func (d *badgerNodeDB) Prune(version uint64) error {
 	if err := batch.Flush(); err != nil {
 		return fmt.Errorf("mkvs/badger: failed to flush batch: %w", err)
 	}
+	verifhook.CrashPoint("badger.prune.afterBatchFlush")
 
 	// Update metadata.
 	if err := d.meta.setEarliestVersion(tx, version+1); err != nil {
@@ -1123,9 +1128,11 @@ func (ba *badgerBatch) Commit(root node.Root) error {
 			return fmt.Errorf("mkvs/badger: failed to flush node log batch: %w", err)
 		}
 	}
+	verifhook.CrashPoint("badger.commit.afterLogFlush")
 	if err = ba.bat.Flush(); err != nil {
 		return fmt.Errorf("mkvs/badger: failed to flush batch: %w", err)
 	}
+	verifhook.CrashPoint("badger.commit.afterBatchFlush")
 
 	// Commit root metadata updates. This is done last, so in case we fail, we can still retry.
 	if err = tx.CommitAt(tsMetadata, nil); err != nil {
